@@ -4,6 +4,8 @@ from __future__ import annotations
 import copy
 
 import common as C
+import fault_probes as FP
+import re_probes as RP
 import engine_common as E
 import engine_extract
 from engine_common import M, seq
@@ -337,12 +339,31 @@ def enumerate_s4():
 _ENUM = None
 
 
+def _probe_reason(sc, o):
+    """a plan that dies with an exception closes its runs 'fail' with str(exception) as reason, whatever the exception's
+    arguments look like (fault probes: OSError, KeyError(3), no arguments)"""
+    bad = []
+    if sc.get("fault", {}).get("kind") != "none" or not o["returns"] or not o["returns"][0][1].startswith("raise:"):
+        return bad
+    text = o["return_texts"][0]
+    for d in o["docs"]:
+        if d["k"] == "stop" and (d["exit"] != "fail" or d["reason_text"] != text):
+            bad.append(("odd-exception:stop-not-fail-with-exception-text", f"the plan raised {o['returns'][0][1][6:]}({text!r}); RunStop of {d['run']}: exit_status {d['exit']!r}, reason {d['reason_text']!r}"))
+    return bad
+
+
+PROBE_JUDGES = [FP.every_run_closed_once, _probe_reason]
+
+
 def run(ctx, model=True):
     global _ENUM
     if _ENUM is None:
         _ENUM = enumerate_s4()
     extra = _ENUM if (ctx.tier == "thorough" or ctx.deep) else ctx.rng.sample(_ENUM, 50)
-    return E.run_property(ctx, "C02", oracle, gen=gen, quick=100, thorough=1500, model=model, extra_scenarios=extra)
+    res = E.run_property(ctx, "C02", oracle, gen=gen, quick=100, thorough=1500, model=model, extra_scenarios=extra)
+    RP.add_to(res, ["run-wrapper-exception"])
+    FP.run_probes(ctx, res, PROBE_JUDGES, ["close"], 20, 400)
+    return res
 
 
 def run_impl_only(ctx):
@@ -350,4 +371,9 @@ def run_impl_only(ctx):
 
 
 def replay(ctx, data):
+    r = RP.replay(data)
+    if r is not None:
+        return r
+    if FP.is_probe(data):
+        return FP.replay_probe(ctx, data, PROBE_JUDGES)
     return E.replay_property(ctx, data, oracle)
